@@ -1,7 +1,8 @@
 """Setup: make sure dependencies import and pre-compile the kernels the checks use into .cache.
 
 The caches are keyed by generated source, so they can never mask a change in /repo; they only save
-the ~1.4 s/kernel g++ time on the first run after a fresh restore.  Nothing here is required.
+the ~1.3 s/kernel g++ time (and numba compile time) on the first run after a fresh restore.
+Nothing here is required for correctness: every check rebuilds what it needs from /repo.
 """
 
 from __future__ import annotations
@@ -11,8 +12,27 @@ import sys
 import time
 
 
+def _jobs():
+    from . import simcfg
+
+    jobs = []
+    for dtype in ("float32", "float64"):
+        for thr in (False, 1, 2, 3, 5, 8, 16):
+            jobs.append(("allgens", dtype, thr, None))
+            jobs.append(("sims0", dtype, thr, None))
+        # palette geometries with boundary zones (threads = SIM_THREADS)
+        for dim in (2, 3):
+            for gi in range(len(simcfg.PALETTE[dim])):
+                jobs.append(("palette", dtype, simcfg.SIM_THREADS, (dim, gi)))
+        for w in (1, 2, 3, 4):
+            jobs.append(("c13pen", dtype, 2, w))
+    jobs.append(("numba", "float64", 2, None))
+    jobs.append(("numba", "float32", 2, None))
+    return jobs
+
+
 def _warm_one(args):
-    kind, dtype, threads = args
+    kind, dtype, threads, extra = args
     import warnings
 
     warnings.filterwarnings("ignore")
@@ -25,28 +45,57 @@ def _warm_one(args):
     t0 = time.time()
     try:
         import sopht.simulator as sps
+        from . import kernels, simcfg
 
-        if kind == "ns2d":
+        if kind == "allgens":
+            kernels.build_all(real_t, threads)
+        elif kind == "sims0":
+            import sopht.numeric.eulerian_grid_ops as spne
+
             sps.UnboundedNavierStokesFlowSimulator2D(
                 grid_size=(8, 10), x_range=1.0, kinematic_viscosity=1e-2, real_t=real_t,
-                num_threads=threads, with_forcing=True, with_free_stream_flow=True)
-        elif kind == "ns3d":
+                num_threads=threads, with_forcing=True, with_free_stream_flow=True, penalty_zone_width=0)
             for solver in ("greens_function_convolution", "fast_diagonalisation"):
-                sps.UnboundedNavierStokesFlowSimulator3D(
-                    grid_size=(6, 7, 8), x_range=1.0, kinematic_viscosity=1e-2, real_t=real_t,
-                    num_threads=threads, with_forcing=True, with_free_stream_flow=True,
-                    filter_vorticity=True, poisson_solver_type=solver)
-        elif kind == "passive":
+                for ft in ("multiplicative", "convolution"):
+                    sps.UnboundedNavierStokesFlowSimulator3D(
+                        grid_size=(6, 7, 8), x_range=1.0, kinematic_viscosity=1e-2, real_t=real_t,
+                        num_threads=threads, with_forcing=True, with_free_stream_flow=True,
+                        filter_vorticity=True, poisson_solver_type=solver, penalty_zone_width=0,
+                        filter_setting_dict={"order": 1, "type": ft})
             sps.PassiveTransportFlowSimulator(kinematic_viscosity=1e-2, grid_dim=2, grid_size=(8, 10),
                                               x_range=1.0, real_t=real_t, num_threads=threads)
             for ft in ("scalar", "vector"):
-                sps.PassiveTransportFlowSimulator(kinematic_viscosity=1e-2, grid_dim=3,
-                                                  grid_size=(6, 7, 8), x_range=1.0, real_t=real_t,
-                                                  num_threads=threads, field_type=ft)
-        elif kind == "allgens":
-            from . import kernels
+                sps.PassiveTransportFlowSimulator(kinematic_viscosity=1e-2, grid_dim=3, grid_size=(6, 7, 8),
+                                                  x_range=1.0, real_t=real_t, num_threads=threads, field_type=ft)
+            mid = np.zeros((3, 4, 4, 4), dtype=real_t)
+            spne.gen_vorticity_stretching_timestep_ssprk3_pyst_kernel_3d(real_t=real_t, midstep_buffer_vector_field=mid,
+                                                                         num_threads=threads)
+        elif kind == "palette":
+            dim, gi = extra
+            shape, xr = simcfg.PALETTE[dim][gi]
+            for w in (1, 2, 3, 4):
+                if min(shape) < 2 * w + 1:
+                    continue
+                if dim == 2:
+                    sps.UnboundedNavierStokesFlowSimulator2D(
+                        grid_size=shape, x_range=xr, kinematic_viscosity=1e-2, real_t=real_t, num_threads=threads,
+                        penalty_zone_width=w)
+                else:
+                    sps.UnboundedNavierStokesFlowSimulator3D(
+                        grid_size=shape, x_range=xr, kinematic_viscosity=1e-2, real_t=real_t, num_threads=threads,
+                        penalty_zone_width=w)
+        elif kind == "c13pen":
+            w = extra
+            for d in (2, 3):
+                for shape in ([2 * w] * d, [2 * w + 1, 2 * w + 3, 2 * w + 2][:d], [9, 12, 10][:d]):
+                    needs = "grid2" if d == 2 else "grid3"
+                    opts = {"width": w} if d == 2 else {"width": w, "field_type": "scalar"}
+                    kernels.build(f"gen_penalise_field_boundary_pyst_kernel_{d}d", opts, needs, real_t, 2,
+                                  shape=tuple(shape), dx=0.1)
+        elif kind == "numba":
+            from . import ibm
 
-            kernels.build_all(real_t, threads)
+            ibm.warm(real_t)
     except Exception as e:  # noqa: BLE001 - warming is best effort
         return (args, False, f"{type(e).__name__}: {e}", time.time() - t0)
     return (args, True, "", time.time() - t0)
@@ -58,11 +107,13 @@ def main() -> int:
 
     import hypothesis  # noqa: F401  (check.py installed it if it was missing)
 
-    jobs = list(itertools.product(["ns2d", "ns3d", "passive", "allgens"], ["float32", "float64"], [1, 2]))
-    jobs += [("allgens", d, False) for d in ("float32", "float64")]
+    jobs = _jobs()
     t0 = time.time()
+    nfail = 0
     with ProcessPoolExecutor(max_workers=16, mp_context=mp.get_context("spawn")) as ex:
         for args, ok, msg, dt in ex.map(_warm_one, jobs):
+            if not ok:
+                nfail += 1
             print(f"warm {args}: {'ok' if ok else 'FAILED ' + msg} ({dt:.1f}s)", file=sys.stderr)
-    print(f"warm done in {time.time() - t0:.1f}s", file=sys.stderr)
+    print(f"warm done in {time.time() - t0:.1f}s ({len(jobs)} jobs, {nfail} failed; failures are tolerated)", file=sys.stderr)
     return 0
